@@ -4,7 +4,8 @@
    transaction took from the free list return). The committed view cannot change without the switch
    step (C02_uncommitted_invisible). rollback_exact: for every sequence of data allocations and frees the
    rollback restores the allocator exactly (as a set of free pages + all markers and counters). *)
-From VF Require Import Region Freelist Alloc RegionProofs AllocProofs TxAllocProofs.
+From VF Require Import Region Freelist Alloc RegionProofs AllocProofs TxAllocProofs MetaAllocProofs.
+From Coq Require Import Lia.
 
 Theorem C07_area_rollback : forall ar x,
   wff 2 (a_free ar) -> below (a_free ar) (a_end ar) ->
@@ -39,9 +40,27 @@ Print Assumptions C07_rollback_exact.
 Theorem C07_tx_invariant : forall a0 w p a t, DataInv a0 -> dreach a0 w p a t -> TxInv a0 a t.
 Proof. exact dreach_inv. Qed.
 
-(* NOT proved yet: the same statement for transactions that also allocate meta pages (overwrite pages,
-   free-list pages: Ensure/tryGrow/transferToMeta); decided by twin executions on the implementation and
-   by the allocator scripts on the model. *)
+(* The same for transactions that also allocate overwrite pages and meta pages (free-list / mapping pages),
+   including every growth of the meta area this causes (Ensure / tryGrow / transferToMeta), without overflow
+   area. treach: the inductive set of states reachable by Tx.Alloc/AllocN, Tx.Free (of a data page in use),
+   overwrite-page allocation, meta page allocation and meta frees, in any order. Size assumptions: the meta
+   area stays below 2^28 pages, the file grows by less than 2^32 pages inside one transaction. *)
+Theorem C07_rollback_exact_full : forall a0 p a t,
+  Inv0 a0 -> treach a0 p a t -> a_end (meta a) - a_end (data a0) < 2^32 ->
+  let r := rollback a t in
+  maxPages r = maxPages a0 /\ pageSize r = pageSize a0 /\ flRoot r = flRoot a0 /\ flPages r = flPages a0 /\
+  metaTotal r = metaTotal a0 /\
+  a_end (meta r) = a_end (meta a0) /\ wff 2 (a_free (meta r)) /\
+  (forall id, inl id (fregions (a_free (meta r))) <-> inl id (fregions (a_free (meta a0)))) /\
+  avail (a_free (meta r)) = avail (a_free (meta a0)) /\
+  a_end (data r) = a_end (data a0) /\ wff 2 (a_free (data r)) /\
+  (forall id, inl id (fregions (a_free (data r))) <-> inl id (fregions (a_free (data a0)))) /\
+  avail (a_free (data r)) = avail (a_free (data a0)).
+Proof. exact rollback_exact_full. Qed.
+Print Assumptions C07_rollback_exact_full.
+
+(* NOT covered by a theorem: transactions with EnableOverflowArea on a full bounded file (meta pages past
+   the size limit); decided by twin executions on the implementation and by the allocator scripts. *)
 
 (* the instance of it for an allocation from the end of the data area of an allocator without free list *)
 Definition ex_a : allocst :=
@@ -72,4 +91,33 @@ Proof.
   exists a1, t1. split.
   - eapply dr_alloc; [apply dr_init | | exact E]. split; reflexivity.
   - vm_compute in E. injection E as _ _ <- _. reflexivity.
+Qed.
+
+(* non-vacuity of C07_rollback_exact_full: a file without meta area; allocating one overwrite page grows the
+   meta area out of the data area (pages move), then a data allocation; the history is a treach history, the
+   premises hold, and the rollback gives back the initial allocator *)
+Definition ex_b : allocst :=
+  {| maxPages := 64; pageSize := 1024; meta := {| a_end := 6; a_free := fl_empty |}; metaTotal := 0;
+     data := {| a_end := 6; a_free := {| avail := 2; fregions := [{| rid := 3; rcount := 2 |}] |} |}; flRoot := 0; flPages := [] |}.
+Example C07_ex_inv0 : Inv0 ex_b.
+Proof.
+  constructor; cbn.
+  - constructor; cbn.
+    + split; [constructor; cbn; [lia | lia | constructor] | reflexivity].
+    + intros id H. apply inl_cons in H as [H|H]; [unfold inr, rend in H; cbn in H; lia | destruct (inl_nil _ H)].
+    + lia.
+  - split; [constructor | reflexivity].
+  - reflexivity.
+  - intros id H. destruct (inl_nil _ H).
+Qed.
+Example C07_ex_treach : exists id a t, treach ex_b 0 a t /\ id <> 0 /\ moveToMeta t <> [] /\ rollback a t = ex_b.
+Proof.
+  destruct (wal_alloc ex_b (make_tx ex_b false 0)) as [[[id a1] t1]|] eqn:E; [|vm_compute in E; discriminate].
+  destruct (data_alloc_regions a1 t1 3) as [[[regs cnt] a2] t2] eqn:E2.
+  exists id, a2, t2. split.
+  - eapply tr_alloc; [eapply tr_wal; [apply tr_init | | exact E] | | exact E2].
+    + vm_compute. reflexivity.
+    + split; reflexivity.
+  - vm_compute in E. injection E as <- <- <-. vm_compute in E2. injection E2 as _ _ <- <-.
+    split; [discriminate|]. split; [discriminate|]. vm_compute. reflexivity.
 Qed.
